@@ -717,6 +717,10 @@ def loop_rule(P, st, fr, it):
     else:
         S = it
 
+    # zipseqs: contract attribute loop_types = {idx: {'local': 'type'}} declares locals that the body assigns and
+    # that are unbound before the loop; after >= 1 iterations they are bound (havoced, described by the invariant)
+    late_types = {n: t for n, t in ((getattr(c, 'loop_types', None) or {}).get(idx) or {}).items() if n not in fr.locals}
+
     def clauses(done):
         b = {k: v for k, v in fr.locals.items() if not k.startswith('#')}
         for k in list(b):
@@ -725,6 +729,9 @@ def loop_rule(P, st, fr, it):
         b.pop('done', None)
         names = [a.arg for a in inv.node.args.args]
         miss = [n for n in names if n not in ('done', 'old', 'self') and n not in b]
+        for n in [m for m in miss if m in late_types]:   # zipseqs: a local first assigned by the body is None
+            b[n] = None                                  # in the invariant while it is unbound
+            miss.remove(n)
         if miss:
             raise InterpError(f'{inv.qualname}: parameters {miss} are not locals in scope at the loop')
         return ex._call_spec(P, inv, b, {'done': done, 'old': getattr(P, 'old', None)})
@@ -783,6 +790,11 @@ def loop_rule(P, st, fr, it):
         doneS = S.length
     else:
         doneS = S
+    if late_types and is_seq:   # zipseqs: bound iff the body ran at least once
+        ran = simp(S.length >= 1)
+        if ran is True or (ran is not False and P.branch(ran, f'{tag}-ran')):
+            for n, t in late_types.items():
+                fr.locals[n] = P.fresh(ex.types.parse_str(t, info.module.name, info.cls), P.fresh_name(f'{n}@{tag}'))
     for k, cond in clauses(doneS).items():
         P.assume(P.truthy(cond), fact=True)
     if items_map is not None:   # absnodes
